@@ -173,3 +173,15 @@ CHECKS["C20"] = dict(
          "without an output file.",
     note="Objects are written by the harness's own ELF32/ar writers (from the specifications), not by a compiler; a big-endian object may be "
          "refused as unsupported (then it must be an error).")
+
+CHECKS["C19"] = dict(
+    level="model_checking", design_ref="DESIGN.md 4/C19",
+    technique="explicit-state BFS over naken_util command histories (state = byte map, state-hash dedup) on the real tool, byte-map reference model, "
+              "observation through every print width and range spelling plus simulator fetch",
+    text="On msp430, 68000, avr8, propeller and mips (1/2/4 bytes per address, both byte orders), started empty and from a loaded two-segment "
+         "image, every history of up to 2 (thorough 3) write/write16/write32 commands over six addresses in decimal/0x/h spelling and six value "
+         "lists is executed in a scripted session; afterwards print, print16 and print32 over ranges around every touched region (three range "
+         "spellings) must show exactly the byte map of the reference model - the written bytes at address x bytes_per_address in the CPU's byte "
+         "order and every other byte unchanged; a refused (unaligned) write must change nothing and an aligned write must not be refused; the "
+         "simulator must execute the instruction that was written where pc is set, and -bin -address must place a raw file where it says.",
+    note="Interactive 'asm' cannot be scripted (every source line is answered 'Unknown command'); in-process assembly histories are covered by C13.")
